@@ -67,6 +67,24 @@ def includeFields (fs : List Str) : FScope := fun f => match f with | some f => 
 def excludeFields (fs : List Str) : FScope := fun f => !includeFields fs f
 def everything : FScope := fun _ => true
 
+/-! ### condition groups
+
+The `field_name_conditions` of a processing item are linked by `field_name_cond_op` (`and`, the default, or `or`) and the
+linked result is negated by `field_name_cond_not`; a group without conditions always applies, whatever the flag says.
+The same options exist for detection item and rule conditions (`detection_item_cond_not`, `rule_cond_not`): each flag
+belongs to its own group. -/
+
+def linkBools (anyOf : Bool) (bs : List Bool) : Bool := if anyOf then bs.any id else bs.all id
+
+def groupResult (anyOf neg : Bool) (bs : List Bool) : Bool := bs.isEmpty || (linkBools anyOf bs != neg)
+
+/-- the group evaluated on a field name (a field of an item, a referenced field, an entry of the fields list) -/
+def groupFields (anyOf neg : Bool) (cs : List FScope) : FScope := fun f => groupResult anyOf neg (cs.map (· f))
+
+/-- the group evaluated on a detection item: each condition sees the item (its field or a field it references), then
+the results are linked and negated -/
+def groupItems (anyOf neg : Bool) (cs : List FScope) : Scope := fun k vs => groupResult anyOf neg (cs.map (fun c => fieldScope c k vs))
+
 /-! ## generic traversals -/
 
 /-- what becomes of one item of a map -/
@@ -143,6 +161,14 @@ def scopedMap (sc : FScope) (m : Str → List Str) : Str → List Str := fun f =
 is not in scope is not looked at.  `renameItem_gate` shows it is redundant for renaming. -/
 def renameItemGated (sc : FScope) (m : Str → List Str) (kv : KV) : Out :=
   if fieldScope sc kv.1 kv.2 then renameItem (scopedMap sc m) kv else .one kv
+
+/-- renaming behind an arbitrary item-level gate (a condition group evaluated on the item, `groupItems`): an item the
+gate rejects is not looked at; the fields list has no items, every entry goes through the mapping -/
+def renameDetGated (gate : Scope) (m : Str → List Str) : Det → Det :=
+  mapDet (fun kv => if gate kv.1 kv.2 then renameItem m kv else .one kv) .values
+
+def renameFieldsGated (gate : Scope) (m : Str → List Str) (doc : Doc) : Doc :=
+  { doc with dets := mapDets (renameDetGated gate m) doc.dets, fields := doc.fields.flatMap m }
 
 /-- `field_name_mapping` -/
 def tableMap (tbl : List (Str × List Str)) : Str → List Str := fun f => (tbl.lookup f).getD [f]
@@ -345,6 +371,7 @@ def setFields (fs : List Str) (doc : Doc) : Doc := { doc with fields := fs }
 
 inductive Tr
   | rename (m : Str → List Str)
+  | renameGated (gate : Scope) (m : Str → List Str)
   | kwToField (g : Str)
   | drop (sc : Scope)
   | addCond (name : Str) (items : List KV) (negated : Bool)
@@ -356,6 +383,7 @@ mutual
 /-- the documented rewrite of a transformation; a nested pipeline is the composition of its items, in order -/
 def Tr.apply : Tr → Doc → Except RwErr Doc
   | .rename m, doc => .ok (renameFields m doc)
+  | .renameGated gate m, doc => .ok (renameFieldsGated gate m doc)
   | .kwToField g, doc =>
     if doc.dets.all (fun d => kwExpressible d.2) then .ok (keywordToField g doc)
     else .error (.notExpressible "keyword list with non-string values")
